@@ -8,10 +8,14 @@ Declared == {"one", "tenth", "exact", "tenfold"}
 Orders == {"asc", "desc", "shuffle"}
 KeyClass == {"8", "0-and-1", "32", "64", "mixed", "65535", "lengths"}
 Special == {"none", "one-bucket", "duplicate", "key-65536", "vsize-0", "vsize-253", "vsize-255", "vsize-256", "declared-0", "long-value", "short-values"}
-VARIABLES fmt, vs, nc, decl, ord, kc, sp
-vars == <<fmt, vs, nc, decl, ord, kc, sp>>
+\* metadata shapes of the sized format ("metadata of any allowed shape"): none; the typed writers' few short pairs; a pair with
+\* empty key and value; the largest allowed metadata (255 pairs of 255-byte keys and values) and one byte less
+MetaClass == {"none", "typed", "empty-pair", "max", "max-1"}
+VARIABLES fmt, vs, nc, decl, ord, kc, sp, mt
+vars == <<fmt, vs, nc, decl, ord, kc, sp, mt>>
 Big(c) == c \in {"9999", "10001", "20001", "60000"}
-Init == /\ fmt \in Formats /\ vs \in VSizes /\ nc \in NClass /\ decl \in Declared /\ ord \in Orders /\ kc \in KeyClass /\ sp \in Special
+Init == /\ fmt \in Formats /\ vs \in VSizes /\ nc \in NClass /\ decl \in Declared /\ ord \in Orders /\ kc \in KeyClass /\ sp \in Special /\ mt \in MetaClass
+        /\ (mt # "none" => fmt = "sized" /\ sp = "none" /\ nc \in {"3", "40"} /\ ord = "shuffle" /\ decl = "exact" /\ kc = "32" /\ vs \in {8, 36})
         /\ (fmt = "legacy8" => vs = 8) /\ (fmt = "legacy36" => vs = 36)
         \* keep the product meaningful: specials and large populations are crossed with one setting of the other dimensions
         /\ (sp # "none" => ord = "shuffle" /\ decl = "exact" /\ kc = "32" /\ nc \in {"3", "40"} /\ vs \in {8, 36})
@@ -23,5 +27,5 @@ Init == /\ fmt \in Formats /\ vs \in VSizes /\ nc \in NClass /\ decl \in Declare
         /\ (nc \in {"1023", "1025", "2049"} => kc = "32" /\ ord = "shuffle")
 Next == UNCHANGED vars
 Spec == Init /\ [][Next]_vars
-Emit == PrintT("@@CASE@@ " \o ToJson([fmt |-> fmt, vsize |-> vs, n |-> nc, declared |-> decl, order |-> ord, keys |-> kc, special |-> sp]))
+Emit == PrintT("@@CASE@@ " \o ToJson([fmt |-> fmt, vsize |-> vs, n |-> nc, declared |-> decl, order |-> ord, keys |-> kc, special |-> sp, meta |-> mt]))
 ====
